@@ -375,7 +375,9 @@ impl Parser {
                             }
                         }
                     },
-                    Lexem::Operator(s) if s.eq("rx") => {
+                    Lexem::Operator(s)
+                        if s.eq_ignore_ascii_case("rx") || s.eq_ignore_ascii_case("regexp") =>
+                    {
                         regexp = true;
                         mode = RootParsingMode::Options;
                     }
